@@ -170,7 +170,32 @@ void run_incremental(vh::Case& c, const std::string& optname) {
   std::vector<char> present(g.n(), 0);
   std::string sig = "opts=" + optname + (in_order ? ",filtration_order" : ",random_order") + (max_dim < 0 ? ",max_dim=-1" : "");
   Cx before;
-  for (auto& it : items) {
+  // mixed history: the first `prefix` items are given as a 1-skeleton and expanded in one shot, the remaining ones are
+  // inserted incrementally into that tree (the property quantifies over every route; a tree "already holding simplices")
+  size_t prefix = 0;
+  if (max_dim >= 1 && items.size() >= 3 && r.chance(2, 5)) prefix = r.chance(1, 4) ? 1 + (size_t)r.below(items.size() - 1) : items.size() / 2 + (size_t)r.below(items.size() - items.size() / 2);
+  if (prefix > 0) {
+    sig += ",after_one_shot_prefix";
+    c.count("hist.one_shot_prefix_then_incremental");
+    for (size_t t = 0; t < prefix; ++t) {
+      auto& it = items[t];
+      c.log("insert_simplex " + vh::str(g.label[it.i]) + " " + vh::str(g.label[it.j]) + " f=" + vh::str(it.v));
+      if (it.i == it.j) { st.insert_simplex(std::vector<VH>{(VH)g.label[it.i]}, (FV)it.v); present[it.i] = 1; cur.vval[it.i] = it.v; }
+      else { st.insert_simplex(std::vector<VH>{(VH)g.label[it.i], (VH)g.label[it.j]}, (FV)it.v); cur.w[it.i][it.j] = cur.w[it.j][it.i] = it.v; }
+    }
+    c.log("expansion " + vh::str(max_dim));
+    st.expansion(max_dim);
+    std::vector<int> idx; for (int i = 0; i < g.n(); ++i) if (present[i]) idx.push_back(i);
+    WGraph sub = oracle::make_graph((int)idx.size());
+    for (size_t a = 0; a < idx.size(); ++a) { sub.label[a] = g.label[idx[a]]; sub.vval[a] = cur.vval[idx[a]]; for (size_t b = 0; b < idx.size(); ++b) sub.w[a][b] = cur.w[idx[a]][idx[b]]; }
+    before = oracle::flag_complex(sub, max_dim);
+    Cx got = dump(st);
+    c.count("cmp.expansion");
+    if (got != before) { c.violation("expansion.clique_complex", sig + diff_class(got, before), "insert_simplex skeleton + expansion differs from the clique complex:" + diff(got, before)); return; }
+    if (before.size() > idx.size() + 2) c.count("hist.one_shot_prefix_has_triangles_or_more");
+  }
+  for (size_t t = prefix; t < items.size(); ++t) {
+    auto& it = items[t];
     std::vector<typename ST::Simplex_handle> added;
     c.log("insert_edge_as_flag " + vh::str(g.label[it.i]) + " " + vh::str(g.label[it.j]) + " f=" + vh::str(it.v));
     st.insert_edge_as_flag((VH)g.label[it.i], (VH)g.label[it.j], (FV)it.v, max_dim, added);
